@@ -929,4 +929,72 @@ theorem buildEls_mapIds (fs : FS) : ∀ (els : List ElSpec) (j : Nat) (ch : Chai
       · exact Or.inl (by simpa [mapIds] using h)
       · exact Or.inr (by omega)
 
+theorem build_eq' (mode : Mode) (fs : FS) (s : SrcSpec) (els : List ElSpec) (hm : ModeOk mode els) :
+    build mode fs s els = buildEls fs 0 els ⟨[], freshSrc s⟩ := by
+  by_cases hb : mode = .bare
+  · subst hb
+    rcases hm with h | ⟨c, rc, rfl⟩
+    · exact absurd rfl h
+    · exact build_bare_eq fs s c rc
+  · exact build_eq mode hb fs s els
+
+theorem NoFilled.nil (fs : FS) : NoFilled fs [] := fun _ _ h => by simp at h
+
+theorem NoFilled.map {fs : FS} {els : List ElSpec} (a : Int) (r : Option Nat) (h : NoFilled fs els) :
+    NoFilled fs (.map a r :: els) := fun c rc hc => h c rc (by simpa using hc)
+
+theorem NoFilled.cache {fs : FS} {els : List ElSpec} {c : Nat} {rc : Bool} (hx : cacheExists fs c rc = false)
+    (h : NoFilled fs els) : NoFilled fs (.cache c rc :: els) := fun c' rc' hc => by
+  simp only [List.mem_cons, ElSpec.cache.injEq] at hc
+  rcases hc with ⟨rfl, rfl⟩ | hc
+  · exact hx
+  · exact h c' rc' hc
+
+/-- where a dump generator of a built chain comes from: it was there before and no cache of `els` is
+replayed, or it is the generator of an unfilled cache of `els` after which no cache is replayed -/
+theorem dumpIds_buildEls (fs : FS) (c : Nat) : ∀ (els : List ElSpec) (j : Nat) (ch : Chain),
+    c ∈ dumpIds (buildEls fs j els ch).uppers →
+    (c ∈ dumpIds ch.uppers ∧ NoFilled fs els) ∨
+      ∃ pre rc post, els = pre ++ .cache c rc :: post ∧ cacheExists fs c rc = false ∧ NoFilled fs post
+  | [], _, _, h => Or.inl ⟨h, NoFilled.nil fs⟩
+  | .map a r :: els, j, ch, h => by
+    rw [buildEls] at h
+    rcases dumpIds_buildEls fs c els _ _ h with ⟨h, nf⟩ | ⟨pre, rc, post, e, h1, h2⟩
+    · exact Or.inl ⟨by simpa [dumpIds] using h, nf.map a r⟩
+    · exact Or.inr ⟨.map a r :: pre, rc, post, by simp [e], h1, h2⟩
+  | .cache c' rc' :: els, j, ch, h => by
+    rw [buildEls] at h
+    by_cases hx : cacheExists fs c' rc' = true
+    · rw [if_pos hx] at h
+      rcases dumpIds_buildEls fs c els _ _ h with ⟨h, _⟩ | ⟨pre, rc, post, e, h1, h2⟩
+      · simp [dumpIds] at h
+      · exact Or.inr ⟨.cache c' rc' :: pre, rc, post, by simp [e], h1, h2⟩
+    · rw [if_neg hx] at h
+      have hx' : cacheExists fs c' rc' = false := by simpa using hx
+      rcases dumpIds_buildEls fs c els _ _ h with ⟨h, nf⟩ | ⟨pre, rc, post, e, h1, h2⟩
+      · simp only [dumpIds, List.mem_cons] at h
+        rcases h with rfl | h
+        · exact Or.inr ⟨[], rc', els, rfl, hx', nf⟩
+        · exact Or.inl ⟨h, nf.cache hx'⟩
+      · exact Or.inr ⟨.cache c' rc' :: pre, rc, post, by simp [e], h1, h2⟩
+
+/-- elements without a replayed cache cannot turn a flow that ends with an exception into one that ends
+normally -/
+theorem elsFlow_exc_none (fs : FS) : ∀ (els : List ElSpec) (f : Flow), NoFilled fs els →
+    (elsFlow fs els f).exc = none → f.exc = none
+  | [], _, _, h => h
+  | .map a r :: els, f, nf, h => by
+    have := elsFlow_exc_none fs els (mapFlow a r f) (fun c rc hc => nf c rc (by simp [hc])) (by simpa [elsFlow] using h)
+    cases r with
+    | none => simpa [mapFlow] using this
+    | some q =>
+      simp only [mapFlow] at this
+      split at this
+      · simp at this
+      · exact this
+  | .cache c rc :: els, f, nf, h => by
+    have hx : cacheExists fs c rc = false := nf c rc (by simp)
+    simp only [elsFlow, hx, Bool.false_eq_true, if_false] at h
+    exact elsFlow_exc_none fs els f (fun c' rc' hc => nf c' rc' (by simp [hc])) h
+
 end Lena.C18
